@@ -9,6 +9,7 @@ ARITH = ('+', '-', '*')  # '/' and '**' on symbolic ints leave CrossHair's decid
 CMP = ('=', '!=', '<', '<=', '>', '>=')
 
 X, Y, P, Q = ('f', 'x'), ('f', 'y'), ('f', 'p'), ('f', 'q')
+AX = ('fa', ('var', 'A'), 'x')
 C0, C1, C2 = ('sym', 0), ('sym', 1), ('sym', 2)
 
 
@@ -19,6 +20,10 @@ def _templates() -> List[Tuple[str, Any]]:
             T.append((f'(x {o} c0) {c} c1', ('bin', c, ('bin', o, X, C0), C1)))
             T.append((f'(c0 {o} x) {c} c1', ('bin', c, ('bin', o, C0, X), C1)))
             T.append((f'(x {o} c0) {c} x', ('bin', c, ('bin', o, X, C0), X)))
+    for o in ARITH:
+        for c in CMP:
+            T.append((f'(@A.x {o} c0) {c} @A.x', ('bin', c, ('bin', o, AX, C0), AX)))
+            T.append((f'(@A.x {o} c0) {c} c1', ('bin', c, ('bin', o, AX, C0), C1)))
     for o in ARITH:
         for c in ('=', '<'):
             T.append((f'(x {o} c0) {c} (y {o} c1)', ('bin', c, ('bin', o, X, C0), ('bin', o, Y, C1))))
@@ -94,7 +99,7 @@ def body(i: int, c0: int, c1: int, c2: int, x: int, y: int, p: bool, twin: bool 
         ast = gen.build(spec)
     except TypeError:
         return None
-    heap = sem.DictHeap({'x': x, 'y': y, 'p': p})
+    heap = sem.DictHeap({'x': x, 'y': y, 'p': p}, aliases={'A': {'x': y}})  # @A.x takes y's value
     try:
         vi = sem.pyeval(ast, heap)
         in_def = True
